@@ -141,6 +141,16 @@ def main():
     # every failure must belong to the demonstration
     demo_fn_names = set(re.findall(r"fn\s+([A-Za-z0-9_]+)\s*\(", open(demo).read()))
     foreign = [t for t in failed_tests if t.split("::")[-1] not in demo_fn_names]
+    if foreign and not cerr:
+        # the suite has real-time (sleep-based) TTL tests that fail under heavy machine load: a
+        # pre-existing test counts as broken by the change only if it fails in a second run too
+        a2 = sh(["git", "-C", SV, "apply", patch])
+        shutil.copy(demo, os.path.join(SV, place))
+        _p2, _f2, failed2, cerr2, _ = run_suite(SV)
+        sh(["git", "-C", SV, "checkout", "--", "."])
+        os.remove(os.path.join(SV, place))
+        foreign = [t for t in foreign if t in failed2]
+        meta["confirmed"]["suite_rerun_failed_tests"] = failed2
     meta["confirmed"]["existing_tests_pass_with_change"] = (not cerr) and not foreign
     valid = meta["confirmed"]["existing_tests_pass_with_change"] and meta["confirmed"]["demo_passes_without_change"] and meta["confirmed"]["demo_fails_with_change"]
     meta["valid"] = bool(valid)
